@@ -13,13 +13,14 @@ CONFIGS_THOROUGH = ["A", "R"]
 TECHNIQUE = ("field-read exhaustiveness of the parsed serde-attribute structs over the proc-macro crate's MIR; panic reachability and API-misuse rules (identifier "
              'construction from arbitrary strings, splitting at letters) in the naming code; decision structure of the word-boundary test in the variant case '
              'converter')
-LEVEL_TEXT = ("Decides clauses C16-a/b/c: every field of the derive's ContainerAttributes / FieldAttributes / VariantAttributes that stands for a serde attribute "
+LEVEL_TEXT = ("Decides clauses C16-a..d: every field of the derive's ContainerAttributes / FieldAttributes / VariantAttributes that stands for a serde attribute "
               'changing the JSON shape is read somewhere outside its parser (an attribute that is parsed but never consulted cannot be honoured); the case converters'
               ' reach no panicking string slicing that is not guarded, property and variant names are never turned into `Ident`s from converted or user-given strings'
               ' (serde names need not be identifiers: kebab-case, `rename = "a-b"`), and an identifier is never split at letters (which would drop them); the '
               "snake_case variant converter (on which kebab and the SCREAMING forms are built) pushes its `_` separator under exactly serde_derive's two per-"
-              'character tests -- upper-case and not the first character -- and pushes the lower-cased character unconditionally. Decides these clauses, not '
-              'agreement of the derived schema with serde_derive for all type definitions.')
+              'character tests -- upper-case and not the first character -- and pushes the lower-cased character unconditionally; no name taken from an explicit '
+              '`rename` attribute reaches a container case conversion (reaching definitions of the name variable), so an explicit rename wins as in serde. Decides '
+              'these clauses, not agreement of the derived schema with serde_derive for all type definitions.')
 
 ATTR = "ohkami_macros::openapi::attributes::serde::attributes::"
 # serde attributes that do not change the serialized shape / the set of accepted documents described by the schema
@@ -47,6 +48,7 @@ def run(ck, progs):
         ck.guard("C16-a EXHAUSTIVE attributes", lambda: c16a(ck, prog))
         ck.guard("C16-b REACH naming", lambda: c16b(ck, prog))
         ck.guard("C16-c DECISION word boundary", lambda: c16c(ck, prog))
+        ck.guard("C16-d ORDER rename precedence", lambda: c16d(ck, prog))
     ck.config = None
 
 
@@ -174,3 +176,85 @@ def c16c(ck, prog):
               how="push(ch.to_ascii_lowercase()) on every iteration")
     ck.floor(R, "separator pushes", len(seps), 1)
     ck.floor(R, "character pushes", len(pushes), 1)
+
+
+def derives_from(f, rvalue, rx, seen, depth=5):
+    """does an rvalue derive, through re-assigned temporaries (match arms joining in a tuple), from something whose
+    description matches rx? -> the matching description or None"""
+    if depth <= 0:
+        return None
+    ops = []
+    if rvalue[0] == "use":
+        ops = [rvalue[1]]
+    elif rvalue[0] == "agg":
+        ops = list(rvalue[2])
+    for op in ops:
+        if op[0] not in ("c", "m"):
+            continue
+        txt = decision.describe_deep(f, op, 6)
+        if re.search(rx, txt):
+            return txt
+        st = f.origin(op)
+        if st and st[-1][0] == "multi" and st[-1][1] not in seen:
+            m = st[-1][1]
+            for d in f.defs().get(m, []):
+                if f.is_cleanup(d[0]):
+                    continue
+                if d[2] == "assign":
+                    hit = derives_from(f, d[3]["r"], rx, seen | {m}, depth - 1)
+                    if hit:
+                        return hit
+        if st and st[-1][0] == "agg":
+            hit = derives_from(f, st[-1][1], rx, seen, depth - 1)
+            if hit:
+                return hit
+    return None
+
+
+def c16d(ck, prog):
+    """serde: an explicit `#[serde(rename = "..")]` names the field/variant exactly; the container's `rename_all` /
+    `rename_all_fields` case rule applies only to names that were not renamed explicitly. In the generator the name variable
+    is assigned several times; no value derived from a `rename` attribute may reach a case conversion (reaching definitions)."""
+    R = "C16-d ORDER rename precedence"
+    n = 0
+    for f in prog.fns.values():
+        if f.crate != "ohkami_macros" or "case::Case" in f.key:
+            continue
+        for c in f.calls():
+            if c.name not in ("apply_to_field", "apply_to_variant") or "case::Case" not in (c.callee or "") or len(c.args) < 2:
+                continue
+            n += 1
+            st = f.origin(c.args[1])
+            if st and st[-1][0] == "call" and st[-1][1].name in ("deref", "as_str", "as_ref", "borrow") and st[-1][1].args:
+                st = f.origin(st[-1][1].args[0])
+            if not st or st[-1][0] != "multi":
+                # converts a value that is not a re-assigned variable: judge it directly
+                d = decision.describe_deep(f, c.args[1], 6)
+                ok = re.search(r"\.rename\b", d) is None
+                ck.ob(R, "%s:%s#bb-direct%d" % (f.name, c.name, n), ok, f.loc(c.sp), "" if ok else "%s converts the case of a value taken from a `rename` attribute (%s)" % (f.key, d[:80]), how="input of the case conversion: %s" % d[:60])
+                continue
+            local = st[-1][1]
+            IN, OUT = paths.reaching_defs(f, local)
+            reach = IN.get(c.bb, set()) if not any(d[0] == c.bb for d in OUT.get(c.bb, set()) if d[1] is not None) else IN.get(c.bb, set())
+            bad = []
+            for (dbb, si) in sorted(reach, key=lambda x: (x[0], x[1] or 0)):
+                for d in f.defs().get(local, []):
+                    if d[0] == dbb and d[1] == si:
+                        if d[2] == "assign" and d[3]["r"][0] == "use":
+                            txt = decision.describe_deep(f, d[3]["r"][1], 6)
+                        elif d[2] == "call":
+                            txt = decision.describe_deep(f, ["c", [local, []]], 6) if False else (d[3].get("callee") or "")
+                        else:
+                            txt = ""
+                        if re.search(r"\.rename\b", txt):
+                            bad.append(txt)
+                        elif d[2] == "assign":
+                            hit = derives_from(f, d[3]["r"], r"\.rename\b", {local})
+                            if hit:
+                                bad.append(hit)
+            ok = not bad
+            ck.ob(R, "%s:%s@%s" % (f.name, c.name, "rename_all_fields" if "rename_all_fields" in decision.describe_deep(f, c.args[0], 6) else "rename_all"), ok, f.loc(c.sp),
+                  "" if ok else "in %s a name taken from an explicit `#[serde(rename = ..)]` (%s) reaches the container's case conversion: serde writes the renamed name verbatim "
+                  "(`rename_all = \"camelCase\"` + `rename = \"legacy_id\"` is `legacy_id` on the wire, the schema would say `legacyId`)" % (f.key, bad[0][:70]),
+                  how="no definition of the name derived from `.rename` reaches the conversion (%d reaching definition(s))" % len(reach))
+    ck.floor(R, "case conversions of names in the generator", n, 4)
